@@ -89,6 +89,15 @@ def gen_cases(rng, tier, rnd):
             if rng.random() < 0.5:
                 # history: another grammar was derived from, and dropped, earlier in the same interpreter
                 c['prelude'] = gencfg.rename(gencfg.abstract_cnf(rng), rng)[0]
+    if rnd % 2 == 1:
+        # a large finite closure whose ONLY accepting configuration is the one a breadth-first search discovers last (after
+        # more than a thousand expansions), under a limit raised above the default.  Drawn from a generator of its own and
+        # appended at the end, so that the cases above are the same as before this family existed.
+        import random
+        r2 = random.Random(7919 * rnd + 13)
+        a = genpda.big_closure_pda(r2, depth=10, needle=True)
+        s, rank = genfa.rename(a, r2)
+        cases.append({'kind': 'pda', 'spec': s, 'rank': rank, 'abs': hx(a), 'limit': r2.choice([3500, 5000]), 'words': ['', s['Sigma'][0]]})
     return cases
 
 
